@@ -186,8 +186,11 @@ def sym_list(x=()):
         c = cur()
         if not c.decide(x._has_len()):
             raise TypeError(f"'{x.name}' object is not iterable")
-        return AnyObj(x.name + "!aslist", c, own_cls=x.own_cls, tag=z3.IntVal(AnyObj.LIST), length=x.length,
-                      value=x.value, elem=x.elem, assume_domain=False)
+        r = AnyObj(x.name + "!aslist", c, own_cls=x.own_cls, tag=z3.IntVal(AnyObj.LIST), length=x.length,
+                   value=x.value, elem=x.elem, assume_domain=False)
+        if "loop_inv" in x.__dict__:
+            r.__dict__["loop_inv"] = x.__dict__["loop_inv"]
+        return r
     return list(x)
 
 
@@ -361,3 +364,159 @@ def make_loop_factory(specs):
     def factory(qualname, k, iterable, state):
         return LoopCut(f"{qualname}#{k}", iterable, state, specs[(qualname, k)])
     return factory
+
+
+# ---------------------------------------------------------------------------
+# dynamic cut of pure validation loops, keyed by the *iterable* rather than by the
+# position of the loop in the source: robust against moving a validation loop into a
+# helper, reordering or renaming (a sidecar keyed by loop ordinals breaks on such edits)
+_CHECK_CALLS = {"isinstance", "len", "type", "str", "repr", "TypeError", "ValueError", "bool", "int", "float"}
+
+
+def _pure_check(stmts):
+    """statements that can only inspect and raise: if / raise / pass / bare expressions, calling
+    nothing but a few builtins and exception constructors; no assignment of any kind"""
+    for st in stmts:
+        if isinstance(st, ast.If):
+            if not (_pure_expr(st.test) and _pure_check(st.body) and _pure_check(st.orelse)):
+                return False
+        elif isinstance(st, ast.Raise):
+            if not ((st.exc is None or _pure_expr(st.exc)) and (st.cause is None or _pure_expr(st.cause))):
+                return False
+        elif isinstance(st, ast.Pass):
+            pass
+        elif isinstance(st, ast.Expr):
+            if not _pure_expr(st.value):
+                return False
+        elif isinstance(st, ast.For):
+            # a nested validation loop: its target is live inside it only
+            if st.orelse or not (_pure_expr(st.iter) and _pure_check(st.body)):
+                return False
+        else:
+            return False
+    return True
+
+
+def _pure_expr(e):
+    for n in ast.walk(e):
+        if isinstance(n, (ast.NamedExpr, ast.Await, ast.Yield, ast.YieldFrom, ast.Lambda, ast.ListComp, ast.SetComp, ast.DictComp, ast.GeneratorExp)):
+            return False
+        if isinstance(n, ast.Call) and not (isinstance(n.func, ast.Name) and n.func.id in _CHECK_CALLS):
+            return False
+    return True
+
+
+class CutCheckLoops(ast.NodeTransformer):
+    """every `for` loop whose body is a pure check is rewritten into a run-time dispatch:
+    if the iterable turns out to be a symbolic container that carries an invariant
+    (`loop_inv`, attached by the harness to the argument it describes) the loop is cut with
+    that invariant, otherwise it runs natively on a copy of the original body"""
+
+    def __init__(self):
+        self.stack = []
+        self.counters = {}
+        self.rewritten = []
+
+    def visit_ClassDef(self, node):
+        self.stack.append(node.name)
+        self.generic_visit(node)
+        self.stack.pop()
+        return node
+
+    def visit_FunctionDef(self, node):
+        self.stack.append(node.name)
+        self.counters[".".join(self.stack)] = 0
+        self.generic_visit(node)
+        self.stack.pop()
+        return node
+
+    def visit_For(self, node):
+        import copy as _copy
+        q = ".".join(self.stack)
+        self.counters[q] = self.counters.get(q, 0) + 1
+        k = self.counters[q]
+        pure = not node.orelse and _pure_check(node.body)      # judged on the original body
+        self.generic_visit(node)
+        if not pure:
+            return node
+        self.rewritten.append((q, k))
+        n = len(self.rewritten)
+        it, lc = f"__pyvc_it_{n}", f"__pyvc_dlc_{n}"
+
+        def call(obj, meth, *args):
+            return ast.Call(func=ast.Attribute(ast.Name(obj, ast.Load()), meth, ast.Load()), args=list(args), keywords=[])
+        native = ast.For(target=_copy.deepcopy(node.target), iter=ast.Name(it, ast.Load()), body=_copy.deepcopy(node.body), orelse=[])
+        cut_body = [ast.Expr(call(lc, "begin_iteration")),
+                    ast.Assign(targets=[node.target], value=call(lc, "item"))] + node.body + \
+                   [ast.Expr(call(lc, "end_iteration", ast.Dict(keys=[], values=[])))]
+        cut = [ast.Assign(targets=[ast.Name(lc, ast.Store())],
+                          value=ast.Call(func=ast.Name("__pyvc_loop_dyn__", ast.Load()),
+                                         args=[ast.Constant(q), ast.Constant(k), ast.Name(it, ast.Load())], keywords=[])),
+               ast.If(test=call(lc, "iterate"), body=cut_body, orelse=[ast.Expr(call(lc, "exit_state"))])]
+        out = [ast.Assign(targets=[ast.Name(it, ast.Store())], value=node.iter),
+               ast.If(test=ast.Call(func=ast.Name("__pyvc_symseq__", ast.Load()), args=[ast.Name(it, ast.Load())], keywords=[]),
+                      body=cut, orelse=[native])]
+        for x in out:
+            ast.copy_location(x, node)
+            ast.fix_missing_locations(x)
+        return out
+
+
+def _inv_of(x):
+    if isinstance(x, SymEnum):
+        return _inv_of(x.seq)
+    if isinstance(x, AnyObj) and x.elem is not None:
+        return x.__dict__.get("loop_inv")
+    return None
+
+
+def symseq_with_invariant(x):
+    return _inv_of(x) is not None
+
+
+DYN_CUTS = []      # (key) of every dynamic cut performed (a vacuity guard for the harness)
+
+
+def dyn_loop_factory(qualname, k, iterable):
+    inv = _inv_of(iterable)
+    DYN_CUTS.append(f"{qualname}#{k}")
+    return LoopCut(f"{qualname}#{k}", iterable, {}, LoopSpec([], lambda kk, st, lc: inv(kk)))
+
+
+DYN_REBINDS = {"__pyvc_symseq__": symseq_with_invariant, "__pyvc_loop_dyn__": dyn_loop_factory}
+
+
+def sidecar_mismatch(fn_node, specs, qualname):
+    """why the loop sidecar `specs` (keyed by loop ordinal, naming the loop's state variables) does
+    not describe the function any more, or None.  A sidecar that no longer matches means the
+    unbounded proof is not attempted on this tree - it never means the property fails."""
+    if fn_node is None:
+        return f"{qualname} not found"
+    loops = []
+
+    def walk(stmts):
+        for st in stmts:
+            if isinstance(st, (ast.FunctionDef, ast.ClassDef)):
+                continue
+            if isinstance(st, ast.For):
+                loops.append(st)
+            for fld in ("body", "orelse", "finalbody"):
+                walk(getattr(st, fld, []) or [])
+            for h in getattr(st, "handlers", []) or []:
+                walk(h.body)
+    walk(fn_node.body)
+    want = sorted(k for (q, k) in specs if q == qualname)
+    if len(loops) != len(want):
+        return f"{qualname} has {len(loops)} for-loops, the loop contracts describe {len(want)}"
+    for (q, k), spec in specs.items():
+        if q != qualname:
+            continue
+        stored = {n.id for n in ast.walk(loops[k - 1]) if isinstance(n, ast.Name) and isinstance(n.ctx, ast.Store)}
+        called = {n.func.value.id for n in ast.walk(loops[k - 1]) if isinstance(n, ast.Call) and isinstance(n.func, ast.Attribute)
+                  and isinstance(n.func.value, ast.Name)}
+        subs = {n.value.id for n in ast.walk(loops[k - 1]) if isinstance(n, (ast.Subscript, ast.Attribute))
+                and isinstance(n.ctx, (ast.Store, ast.Del)) and isinstance(n.value, ast.Name)}
+        missing = [v for v in spec.state if v not in stored | called | subs]
+        if missing:
+            return f"loop {k} of {qualname} does not update {missing}, which its loop contract is about"
+    return None
